@@ -46,6 +46,9 @@ class Ctx:
         self.undecided = []
         self.covers = {"checked": 0, "reachable": 0}
         self.level = "proof"
+        self.stage = "start"
+        self.state_path = None
+        self._last_dump = 0.0
         self.checker_cmd = "bin/check %s --tier %s" % (prop, tier)
 
     # ------------------------------------------------------------------ recording
@@ -72,16 +75,29 @@ class Ctx:
             self.engine_errors.append("%s: %s" % (name, detail))
         if len(self.samples) < 6 and status == DISCHARGED:
             self.samples.append({"obligation": name, "verdict": status, "backend": backend, "detail": detail[:300]})
+        self.stage = "deductive obligations (last: %s)" % name
+        self.checkpoint()
+
+    def checkpoint(self, force=False):
+        if self.state_path and (force or time.time() - self._last_dump > 1.0):
+            self._last_dump = time.time()
+            try:
+                _dump_state(self, self.state_path, False)
+            except Exception:  # noqa
+                pass
 
     def add_bounded(self, name, bound, cases, nontrivial, ok, note=""):
         self.bounded.append(
             {"name": name, "label": "bounded", "bound": bound, "cases": cases, "distinct_nontrivial": nontrivial,
              "passed": bool(ok), "note": note}
         )
+        self.stage = "after bounded stand-in '%s'" % name
+        self.checkpoint(True)
 
     def fail(self, signature, what, payload=None, found_input=True):
         """Record a failed obligation / failed bounded case. signature is matched against KNOWN_FINDINGS."""
         self.failures.append({"signature": signature, "what": what, "payload": payload or {}, "found_input": found_input})
+        self.checkpoint(True)
 
     def engine_error(self, text):
         self.engine_errors.append(text)
@@ -215,14 +231,72 @@ def manifest_level(prop):
     return None
 
 
+STATE_FIELDS = ("obligations", "functions", "bounded", "failures", "assumptions", "trusted", "samples", "extra", "lines", "engine_errors", "undecided", "covers", "level", "stage")
+
+
+def _dump_state(ctx, path, complete):
+    st = {k: getattr(ctx, k, None) for k in STATE_FIELDS}
+    st["complete"] = complete
+    tmp = path + ".tmp"
+    with open(tmp, "w") as fh:
+        json.dump(st, fh, default=str)
+    os.replace(tmp, path)
+
+
 def run_check(prop, tier, seed, fn):
+    """The check body runs in a child process that checkpoints its findings: a native crash in the code under test (numba code is
+    not bounds-checked, rustworkx is native) must not lose the obligations already decided, and is reported as an engine error,
+    never silently and never as a pass."""
     ctx = Ctx(prop, tier, seed)
     lvl = manifest_level(prop)
     if lvl:
         ctx.level = lvl  # the evidence reports the level claimed in MANIFEST.json (a check may only lower it)
-    try:
-        fn(ctx)
-    except Exception as e:  # a crash of the machinery is never a violation
-        traceback.print_exc()
-        ctx.engine_error("checker crashed: %r" % (e,))
+    if os.environ.get("VCHECK_NO_FORK") == "1":
+        try:
+            fn(ctx)
+        except Exception as e:  # a crash of the machinery is never a violation
+            traceback.print_exc()
+            ctx.engine_error("checker crashed: %r" % (e,))
+        return ctx.finish()
+    os.makedirs(REPLAY_DIR, exist_ok=True)
+    state_path = os.path.join(REPLAY_DIR, ".state_%s_%d.json" % (prop, os.getpid()))
+    sys.stdout.flush()
+    pid = os.fork()
+    if pid == 0:
+        code = 0
+        try:
+            ctx.state_path = state_path
+            try:
+                fn(ctx)
+            except Exception as e:  # a crash of the machinery is never a violation
+                traceback.print_exc()
+                ctx.engine_error("checker crashed: %r" % (e,))
+            _dump_state(ctx, state_path, True)
+        except BaseException:  # noqa
+            traceback.print_exc()
+            code = 70
+        finally:
+            sys.stdout.flush()
+            sys.stderr.flush()
+            os._exit(code)
+    _, status = os.waitpid(pid, 0)
+    st = None
+    if os.path.exists(state_path):
+        try:
+            with open(state_path) as fh:
+                st = json.load(fh)
+        except Exception:  # noqa
+            st = None
+        try:
+            os.remove(state_path)
+        except OSError:
+            pass
+    if st is not None:
+        for k in STATE_FIELDS:
+            if k in st and st[k] is not None:
+                setattr(ctx, k, st[k])
+    if st is None or not st.get("complete"):
+        how = "signal %d" % os.WTERMSIG(status) if os.WIFSIGNALED(status) else "exit status %d" % (os.WEXITSTATUS(status) if os.WIFEXITED(status) else -1)
+        ctx.engine_error("the check process died (%s) during stage '%s': a native crash in the code under test or one of its libraries; "
+                         "what had been decided before is reported, the rest is undecided" % (how, getattr(ctx, "stage", None) or "start"))
     return ctx.finish()
